@@ -31,6 +31,9 @@ func main() { lib.Main("C11", runC11) }
 type c11in struct {
 	Kind   string `json:"kind"`             // l1 | myers | tree
 	Stream string `json:"stream,omitempty"` // which premise the generator may break: unique | idless | reorder | errors | grow
+	// errseq: failing patch requests, then a valid one
+	Fails    []string `json:"failing_requests,omitempty"`
+	PatchURL string   `json:"patch_request,omitempty"`
 	// l1seq: a request history on one long-lived server
 	Times []int64 `json:"times_ms,omitempty"`
 	Gen   bool    `json:"generated_asset,omitempty"` // the asset is one of the generated layouts (same seed)
@@ -1179,6 +1182,11 @@ func runC11(c *lib.Ctx) error {
 		return err
 	}
 
+	// ---------- L1c: error-then-valid histories, sequential and concurrent
+	if err := runErrHistStage(c, rng, ls, &nextID); err != nil {
+		return err
+	}
+
 	const imports = "From Verif Require Import GoSem Patch CorrC11."
 	nFile := 0
 	for lo := 0; lo < len(myersTerms); lo += 400 {
@@ -1289,6 +1297,8 @@ func replayC11(c *lib.Ctx) error {
 		}
 	case "l1seq":
 		return replaySeq(c, in)
+	case "errseq":
+		return replayErrSeq(c, in)
 	case "myers":
 		o := runMyers(in.E, in.F)
 		fmt.Printf("replay C11 (MyersDiff): e=%v f=%v -> panic=%q ops=%d valid=%v %s\n", in.E, in.F, o.Panic, len(o.Ops), o.Valid, o.Why)
